@@ -895,6 +895,9 @@ func runC13(x *X) {
 	x.Explore("owner-given-as-wrapper", ExploreOpts{ShardDepth: 2, Bound: "table owner given as {B, texttable.Wrap(B), csv.Wrap(texttable.Wrap(B)), markdown.Wrap(B)} x call made on {B, html.Wrap(B), unrelated A, texttable.Wrap(A)} x 3 render times x {ITSELF, CELL}; passes over A (must stay silent) and twice over B"}, func(c *Chooser) {
 		c13OwnerAsWrapper(x, c)
 	})
+	x.Explore("header-row-callbacks", ExploreOpts{ShardDepth: 2, Bound: "header of 1..3 cells x 0..2 body rows x {PRECELL, POSTCELL} x {ITSELF, CELL, ROW} registered on the header row (captured through the add-time ROW callback) x 2 passes"}, func(c *Chooser) {
+		c13HeaderRow(x, c)
+	})
 	refShapes := []c13Shape{{2, []int{2, 2}}, {1, []int{1}}, {-1, []int{2, 1}}, {2, []int{2, -1}}}
 	x.Explore("refusal-then-valid", ExploreOpts{ShardDepth: 3, Bound: fmt.Sprintf("%d shapes x (any supported registration ; an unsupported one on a column or cell ; a supported one on that owner) all made at the start | after all steps x 1 pass", len(refShapes))}, func(c *Chooser) {
 		shape := refShapes[c.Choose(len(refShapes))]
